@@ -24,6 +24,8 @@ var verifPrintExtra = []verifTemplate{
 	{"ranges-casts", "fn main() {\n  for i in 0..=2 { println(i as float); }\n  println((A as float) as int == A || true);\n}\n"},
 	{"lambda-try", "fn main() {\n  let f = fn(a: int) -> int { a + 1 };\n  let r = try { f(A) } catch e { 0 };\n  println(r);\n}\n"},
 	{"singleton", "$S = { n: int };\nfn show(s: $S, k: int) { println(s.n + k); }\nfn main() {\n  show(4);\n}\n"},
+	{"float-magnitudes", "fn main() {\n  println(0.0000001 < 1.0, 123456789012345678901234.5 > 1.0, 1000000.0, 0.5, 0.000123);\n}\n"},
+	{"object-keys-like-keywords", "fn main() {\n  let o = new { \"fn\": 1, \"let\": 2, plain: 3, \"a\\\"b\": 4 };\n  println(o.plain);\n}\n"},
 	{"negative-literals", "fn main() {\n  println(0 - 5, -A, !P, -(1 + 2));\n}\n"},
 }
 
@@ -119,12 +121,16 @@ func verifPrintCheck(code string, inputs []verifInput, printer int, host verifHo
 	}
 	errors.VerifTag("__ignore_panic", "C02")
 	var o1, o2 verifOutcome
-	p, _ := errors.VerifPanics(func() {
-		o1 = verifRunVM(an1, nil, inputs, verifLimits, newVerifCtx())
-		o2 = verifRunVM(an2, nil, inputs, verifLimits, newVerifCtx())
-	})
+	p, _ := errors.VerifPanics(func() { o1 = verifRunVM(an1, nil, inputs, verifLimits, newVerifCtx()) })
 	if p {
-		errors.VerifReached("vm-panicked-skipped")
+		errors.VerifReached("vm-panicked-skipped") // the original program crashes the VM: C02's subject
+		return
+	}
+	errors.VerifUntag("__ignore_panic") // a crash of the printed program alone (in any goroutine) is the printer's doing
+	p2, m2 := errors.VerifPanics(func() { o2 = verifRunVM(an2, nil, inputs, verifLimits, newVerifCtx()) })
+	if p2 {
+		errors.VerifTag("panic", errors.VerifNorm(m2))
+		errors.VerifAssert("printed-program-behaves-identically", false)
 		return
 	}
 	errors.VerifReached("ran")
@@ -496,4 +502,68 @@ func VerifHarness_OptimizerDiverge() {
 	errors.VerifReached("ran")
 	errors.VerifTag("got", errors.VerifNorm(o1.out)+" vs "+errors.VerifNorm(o2.out))
 	errors.VerifAssert("optimised-program-behaves-identically", o1.class == o2.class && o1.out == o2.out)
+}
+
+// VerifHarness_PrintModule: a library module goes through a printer (0 parsed tree, 1 analysed tree); the entry
+// module, unchanged, imports the library's public function, global and type from the printed text: the graph must
+// stay accepted and print the same (a printer that drops `pub`, a type annotation or a field loses it here).
+func VerifHarness_PrintModule() {
+	printer := errors.VerifNdIntRange("printer", 0, 1)
+	errors.VerifTag("printer", []string{"parsed", "analysed"}[printer])
+	lib := "pub type Pair = { left: int, right: ?str };\npub let LIMIT = 9;\npub let NAMES: [str] = [\"a\", \"b\"];\nlet hidden = 1;\n" +
+		"pub fn mk(n: int) -> Pair { return new { left: n + hidden, right: ?\"r\" }; }\nfn private_helper() -> int { return 2; }\npub fn twice(n: int) -> int { return n * private_helper(); }\nfn main() { }\n"
+	main := "import { mk, twice, LIMIT, NAMES, type Pair } from lib;\nfn main() {\n  let p: Pair = mk(A);\n  println(p.left, p.right.unwrap(), twice(LIMIT), NAMES.len());\n}\n"
+	inputs := []verifInput{{name: "A", kind: 'i', i: errors.VerifNdInt64("A")}}
+	an1 := verifAnalyze(main, map[string]string{"lib": lib, "main": main}, inputs, true)
+	if an1.hasError {
+		errors.VerifTag("diag", an1.describe())
+		errors.VerifAssert("accepted", false)
+		return
+	}
+	printed := ""
+	panicked, msg := errors.VerifPanics(func() {
+		if printer == 0 {
+			tree, _, perr := Parse(lib, "lib")
+			if perr != nil {
+				errors.VerifInconclusive("library does not parse")
+			}
+			printed = tree.String()
+		} else {
+			printed = an1.modules["lib"].String()
+		}
+	})
+	if panicked {
+		errors.VerifTag("panic", errors.VerifNorm(msg))
+	}
+	errors.VerifAssert("printer-never-crashes", !panicked)
+	if panicked {
+		return
+	}
+	errors.VerifReached("printed")
+	verifDebug("printed", printed)
+	modules2 := map[string]string{"lib": printed, "main": main}
+	an2 := verifAnalyze(main, modules2, inputs, true)
+	if an2.hasError {
+		errors.VerifTag("diag", an2.describe())
+	}
+	errors.VerifAssert("printed-module-still-offers-its-public-items", !an2.hasError)
+	if an2.hasError {
+		return
+	}
+	errors.VerifTag("__ignore_panic", "C02")
+	var o1, o2 verifOutcome
+	p, _ := errors.VerifPanics(func() { o1 = verifRunVM(an1, map[string]string{"lib": lib, "main": main}, inputs, verifLimits, newVerifCtx()) })
+	if p {
+		errors.VerifReached("vm-panicked-skipped")
+		return
+	}
+	errors.VerifUntag("__ignore_panic")
+	p2, m2 := errors.VerifPanics(func() { o2 = verifRunVM(an2, modules2, inputs, verifLimits, newVerifCtx()) })
+	if p2 {
+		errors.VerifTag("panic", errors.VerifNorm(m2))
+		errors.VerifAssert("printed-program-behaves-identically", false)
+		return
+	}
+	errors.VerifReached("ran")
+	errors.VerifAssert("printed-program-behaves-identically", o1.class == o2.class && o1.out == o2.out)
 }
